@@ -446,16 +446,21 @@ fn fold_core<F: Elem, E: Elem, I: TargetDim, D: Data<Elem = F>, S: Data<Elem = E
     // closed form of one known wrong behaviour: fold size taken from the number of target ELEMENTS
     let fs_elems = (c.n * c.tcols) / c.k;
     let elems_form_possible = c.tix == 2 && c.tcols >= 2 && fs_elems != c.n / c.k;
+    // what the element-count formula would do: chunks of fs_elems rows; no chunk left to concatenate
+    // (1 chunk) or the chunk swap running out of range (fewer chunks than folds)
+    let elems_chunks = if fs_elems == 0 { 0 } else { (c.n + fs_elems - 1) / fs_elems };
+    let elems_panic_text = if elems_chunks <= 1 { "Unsupported".to_string() } else { format!("the len is {} but the index is {}", elems_chunks, elems_chunks) };
     let pairs = match res {
         Ok(p) => p,
         Err(p) => {
-            let sig = if elems_form_possible { "fold.ix2_targets.fold_size_from_element_count" } else { "fold.panic" };
+            let narrow = elems_form_possible && elems_chunks < c.k && p.contains(&elems_panic_text);
+            let sig = if narrow { "fold.ix2_targets.fold_size_from_element_count" } else { "fold.panic" };
             viols.push(Violation::new(
                 sig,
                 format!(
                     "fold({}) on {} samples x {} features, {}-d targets with {} columns ({}) panicked: {}{}",
                     c.k, c.n, c.f, c.tix, c.tcols, c.kind, p,
-                    if elems_form_possible { format!(" [fold size computed as targets.len()/k = {} instead of nsamples/k = {}]", fs_elems, c.n / c.k) } else { String::new() }
+                    if narrow { format!(" [fold size computed as targets.len()/k = {} instead of nsamples/k = {}]", fs_elems, c.n / c.k) } else { String::new() }
                 ),
                 case_json(c),
             ));
